@@ -80,9 +80,13 @@ def exec_real(repo, argv, hashseed, rng, scratch):
         shutil.rmtree(d, ignore_errors=True)
 
 
-def gen_cmdline(rng, env=None, kinds=None, force_opt=None):
-    """One command line with an option file (the H5 observable)."""
-    m = G.gen_model(rng, env=env, kinds=kinds)
+def gen_cmdline(rng, env=None, kinds=None, force_opt=None, want=()):
+    """One command line with an option file (the H5 observable).  `want`
+    lists generator features the model must have (bounded retries)."""
+    for _ in range(200):
+        m = G.gen_model(rng, env=env, kinds=kinds)
+        if all(w in m.features for w in want):
+            break
     pool, _ = G.gen_pool(rng, m, k=2)
     argv = ['-f', repr(pool[0])] + m.argv() + G.field_args(rng, m, force=force_opt)
     argv += ['--output-cmdline', 'opt.txt']
